@@ -85,7 +85,7 @@ func init() {
 		Rule: "grid of every reachable glf plan (17 field-name sets) x limit 1..6 (thorough: x12 chain/start variants): the correct exchanges of one Get are recorded, then every single mutation " +
 			"(drop/dup/swap/null/number element, null/missing/wrong-typed result, error member added/replacing/code 0, renumber below/above/in-range/far, break parent, change hash, item moved out of range/to another block/tx, " +
 			"item block hash changed, item dropped/duplicated/swapped, nested receipt log renamed, wrong JSON types, body truncated at k/16, non-2xx with intact body, garbage, null/empty/object bodies, swapped trace responses; thorough: sampled pairs) " +
-			"is replayed through a nocache and a caching client; plus one hostile Hash/Latest/poller scenario per case. Signature = (plan, mutation kind, position class, outcome class); trivial = none (every run is a Get against a mutated source).",
+			"is replayed through a nocache and a caching client; whenever the caching client rejected a mutated response set, the SAME client repeats the Get against correct responses (must ask for the segment again and return the faithful result); plus one hostile Hash/Latest/poller scenario per case. Signature = (plan, mutation kind, position class, outcome class); trivial = none (every run is a Get against a mutated source).",
 		Assumptions: []string{
 			"faithful attachment is by NAME: an item (log/receipt/trace) that names another requested block or transaction than the request position it arrived in must be attached to the named one (or the call fails); the call is never required to fail for that alone",
 			"an item whose blockHash contradicts the header supplied for the block number it names refers to a block that is not part of the result: the call must fail (plans with headers/blocks only)",
@@ -105,7 +105,7 @@ func init() {
 		CaseTimeoutS:     120,
 		Exhaustive:       func(string) bool { return false },
 		MinObs: func(tier string) map[string]int64 {
-			return map[string]int64{"get_calls": 20000, "must_error_runs": 8000, "accepted_faithful": 1000, "baseline_ok": 100, "hostile_calls": 30}
+			return map[string]int64{"get_calls": 20000, "must_error_runs": 8000, "accepted_faithful": 1000, "baseline_ok": 100, "hostile_calls": 30, "retries_faithful": 5000}
 		},
 	})
 }
@@ -125,6 +125,7 @@ type c07Scenario struct {
 }
 
 type c07Run1 struct {
+	cl     *jrpc2.Client
 	blocks []eth.Block
 	err    error
 	panicv string
@@ -152,9 +153,14 @@ func c07LogMakers() []gen.LogMaker {
 
 // run performs one Get through a fresh client while the node applies muts.
 func (s *c07Scenario) run(tag string, muts []simnode.Mut) *c07Run1 {
+	return s.serve(jrpc2.New(s.node.URL(tag)), tag, muts)
+}
+
+// serve performs one Get through the given client while the node applies muts.
+func (s *c07Scenario) serve(cl *jrpc2.Client, tag string, muts []simnode.Mut) *c07Run1 {
 	var (
 		mu  sync.Mutex
-		out = &c07Run1{}
+		out = &c07Run1{cl: cl}
 	)
 	s.node.ResetStep()
 	s.node.SetHook(func(info *simnode.ReqInfo) simnode.Action {
@@ -193,7 +199,6 @@ func (s *c07Scenario) run(tag string, muts []simnode.Mut) *c07Run1 {
 		}
 		return act
 	})
-	cl := jrpc2.New(s.node.URL(tag))
 	func() {
 		defer func() {
 			if r := recover(); r != nil {
@@ -622,6 +627,9 @@ func (s *c07Scenario) judge(tag string, muts []simnode.Mut) {
 			c.Inconclusive("baseline Get failed for plan %s start %d limit %d: %v", s.plan, s.start, s.limit, r.err)
 		}
 		c.SetSig("%s|%s|%s|rejected", s.plan, mk, pos)
+		if tag == "" && len(muts) > 0 {
+			s.retryAfterRejection(r, v, muts, mk, methodOfMut)
+		}
 	case len(v.MustErr) > 0:
 		c.Obs("must_error_runs", 1)
 		// the first inconsistency (in exchange order) is the one the client had to stop at
@@ -699,6 +707,92 @@ func (s *c07Scenario) judge(tag string, muts []simnode.Mut) {
 	}
 }
 
+// retryAfterRejection: the caching client just rejected a response set. The same
+// client asks again for the same range while the source answers correctly: the
+// rejected data must not come back from the segment cache, i.e. the segment is
+// requested anew and the result is the faithful attachment of the new responses.
+func (s *c07Scenario) retryAfterRejection(first *c07Run1, v1 *refmodel.AttVerdict, muts []simnode.Mut, mk, methodOfMut string) {
+	c := s.c
+	r := s.serve(first.cl, "", nil)
+	c.Obs("get_calls", 1)
+	c.Obs("retries_after_rejection", 1)
+	method, why := methodOfMut, mk
+	if len(v1.MustErr) > 0 {
+		method, why = v1.MustErr[0].Method, v1.MustErr[0].Kind
+	}
+	detail := func(extra map[string]any) map[string]any {
+		d := map[string]any{"plan": s.plan, "fields": s.fields, "start": s.start, "limit": s.limit, "client": "caching, same client for both calls",
+			"mutations_of_first_call": muts, "first_call_exchanges": c07ExDump(first.exs, muts), "first_call_error": first.err.Error(),
+			"retry_exchanges": c07ExDump(r.exs, nil)}
+		if r.err != nil {
+			d["retry_error"] = r.err.Error()
+		} else if r.panicv == "" {
+			d["retry_returned"] = c07Dump(r.blocks)
+		}
+		for k, x := range extra {
+			d[k] = x
+		}
+		return d
+	}
+	// The segment must be asked for again when the rejected exchange was the segment
+	// itself (the last exchange the first call got to). If a later exchange (receipts,
+	// logs, traces) was rejected, the segment had been accepted and may come from cache;
+	// then the accepted segment exchange of the first call stands in for the oracle.
+	isSeg := func(e simnode.Exchange) bool { return e.Kind == simnode.ExBlocks || e.Kind == simnode.ExHeaders }
+	segPlan := len(first.exs) > 0 && isSeg(first.exs[len(first.exs)-1])
+	segAsked := false
+	for _, e := range r.exs {
+		if isSeg(e) {
+			segAsked = true
+		}
+	}
+	oracleExs := r.exs
+	cachedMutatedSeg := false
+	if !segAsked && !segPlan {
+		for _, e := range first.exs {
+			if isSeg(e) {
+				oracleExs = append([]simnode.Exchange{e}, r.exs...)
+				for _, m := range muts {
+					if m.Affects(e.Seq) {
+						// the accepted (and legitimately cached) segment carried the mutation, e.g. a changed
+						// hash of the last block: later exchanges may keep contradicting it until it expires
+						cachedMutatedSeg = true
+					}
+				}
+			}
+		}
+	}
+	switch {
+	case r.panicv != "":
+		c.Violate(fmt.Sprintf("c07:%s:panic:%s", method, r.frame), detail(map[string]any{"panic": r.panicv, "stack": c07Trim(r.stack, 3000)}),
+			"the Get after a rejected response (%s, plan %s) panicked in %s: %s", why, s.plan, r.frame, r.panicv)
+	case r.err != nil && cachedMutatedSeg:
+		c.Obs("retries_failing_on_cached_accepted_segment", 1)
+	case r.err != nil:
+		c.Violate(fmt.Sprintf("c07:%s:%s:correct-retry-rejected", method, why), detail(nil),
+			"after a rejected response (%s, plan %s) the same client failed again although the source answered correctly: %v", why, s.plan, r.err)
+	case segPlan && !segAsked:
+		c.Violate(fmt.Sprintf("c07:%s:%s:rejected-response-served-from-cache", method, why), detail(nil),
+			"after a rejected response (%s, plan %s) the next Get of the same range succeeded without asking the source for the blocks again", why, s.plan)
+	default:
+		v := refmodel.Attach(s.start, s.limit, c07ToAtt(oracleExs))
+		kinds := map[string]bool{}
+		for _, e := range oracleExs {
+			kinds[e.Kind] = true
+		}
+		if len(v.MustErr) > 0 {
+			c.Inconclusive("retry exchanges of plan %s are inconsistent although nothing was mutated: %v", s.plan, v.MustErr[0])
+			return
+		}
+		if diffs := c07Compare(v, r.blocks, kinds); len(diffs) > 0 {
+			c.Violate(fmt.Sprintf("c07:%s:%s:rejected-response-served-from-cache", method, why), detail(map[string]any{"diffs": diffs}),
+				"after a rejected response (%s, plan %s) the next Get of the same range returned data that differs from the correct responses it was served: %s", why, s.plan, diffs[0].Msg)
+			return
+		}
+		c.Obs("retries_faithful", 1)
+	}
+}
+
 // ---------------------------------------------------------------- cases
 
 func c07Run(c *vk.Case) {
@@ -740,6 +834,10 @@ func c07Run(c *vk.Case) {
 
 	// baseline through both clients; the recorded exchanges are the mutation domain
 	b0 := s.run("nocache", nil)
+	for try := 0; try < 3 && b0.err != nil; try++ {
+		time.Sleep(200 * time.Millisecond) // a loaded machine may refuse a connection; pacing only
+		b0 = s.run("nocache", nil)
+	}
 	if b0.err != nil || b0.panicv != "" {
 		c.Inconclusive("baseline Get failed: plan %s start %d limit %d: %v %s", plan, start, limit, b0.err, b0.panicv)
 		return
